@@ -37,6 +37,10 @@ def handle (op : String) (args : List String) : Option String :=
     match chacha_ietf_xor_ic (chachaBi k n) (Chacha.load32le n) (UInt32.ofNat ic) m with
     | .misuse => some "misuse"
     | .ok o => some (toHex o)
+  | "stream.ietf_guard", [mlen, ic] => do
+    let mlen ← u64? mlen; let ic ← parseNat? ic
+    if ic ≥ 2 ^ 32 ∨ mlen.toNat ≤ 4096 then some badArgs else
+    some (if ietfGuardFails (UInt32.ofNat ic) mlen then "misuse" else "proceeds")
   | "stream.xchacha20", [len, n, k] => do
     let len ← parseNat? len; let n ← ofHex n; let k ← ofHex k
     some (toHex (chacha_stream (chachaB (Chacha.hchacha20 (n.take 16) k none) (n.drop 16)) len))
